@@ -528,17 +528,60 @@ func c25Model(c *c25Case, d c25Defect) c25Out {
 // are the stage-1 switches plus the marker switches of stage 2: a row/column switch that is
 // needed only to reproduce *which* wrong marker the shared array ends up with is an artefact
 // of the marker defect, not a finding of its own.  ok=false: nothing reproduces the output.
+// switches that can change the model's output for this case at all (structural
+// preconditions; a switch outside the mask is a no-op here, so leaving it out of the search
+// loses no explanation)
+func (c *c25Case) applicable() c25Defect {
+	var m c25Defect
+	if len(c.by) > 0 {
+		m |= c25DTags
+	}
+	if c.bySKey {
+		m |= c25DStaleSKey
+	}
+	if c.fromEnd {
+		m |= c25DFromEndCut
+	}
+	if c.from.set || c.to.set {
+		m |= c25DSlotSkip | c25DMoreNoRange
+	}
+	if len(c.lods) > 1 {
+		m |= c25DMoreNonPos
+	}
+	if len(c.hw) > 1 {
+		m |= c25DNaNPad
+	}
+	if c.missing {
+		m |= c25DPerQueryPage
+	}
+	for q := range c.hw {
+		for i, f := range c.hw[q].sel {
+			if i >= tsValueCount || c.hw[q].qry[i] != f.Digest.Selector() {
+				m |= c25DSelIndex
+			}
+		}
+	}
+	if c.lodsDesc {
+		m |= c25DLodOrder
+	}
+	if !c25IndexOrdered(c.orderCols) {
+		m |= c25DByOrder
+	}
+	return m
+}
+
 func c25Explain(c *c25Case, actual *c25Out, extra []string) (c25Defect, bool) {
 	if len(extra) > 0 {
 		return 0, false
 	}
+	app := c.applicable()
 	n := bits.OnesCount16(uint16(c25DAll))
 	content := actual.content()
 	s1, found := c25Defect(0), false
 stage1:
 	for size := 0; size <= n; size++ {
 		for s := c25Defect(0); s <= c25DAll; s++ {
-			if s&c25DMarkerOnly != 0 || bits.OnesCount16(uint16(s)) != size {
+			if s&^app != 0 || s&c25DMarkerOnly != 0 || bits.OnesCount16(uint16(s)) != size {
 				continue
 			}
 			m := c25Model(c, s)
@@ -554,7 +597,7 @@ stage1:
 	target := actual.signature()
 	for size := 0; size <= n; size++ {
 		for s := c25Defect(0); s <= c25DAll; s++ {
-			if s&s1 != s1 || bits.OnesCount16(uint16(s&^s1)) != size {
+			if s&^app != 0 || s&s1 != s1 || bits.OnesCount16(uint16(s&^s1)) != size {
 				continue
 			}
 			m := c25Model(c, s)
